@@ -85,6 +85,13 @@ CHECKS = {
             "functions; recorded sessions with random container/output variants validated by TraceNN.tla.",
             "Trusted: TLC; 'rejected' = any exception. Argument classes not named by the property are not judged.",
             "TLA+ model checking (TLC) + spec-to-code replay over container/output variants + trace validation"),
+    "C13": ("DESIGN.md 4/C13",
+            "Grouped.tla (FilterSingletons, GroupApply, Assemble over the reference pc / pcDelta) is model-checked for all small tables with 1-2 "
+            "grouping columns, unsorted keys, singleton groups, joint features and weights (ConditionalIsWeightedMean, SingleGroup, InUnit, "
+            "CrossSymmetric, CrossDiagonal; two mutants rejected). Every terminal behaviour is executed on pc_conditional, pc_grouped_cross, "
+            "pcDelta_grouped, pcDelta_grouped_cross and renyi2_entropy; stdrenyi2_entropy is compared with VarPcN evaluated by TLC.",
+            "Trusted: TLC; the logarithm is harness-side (base^(-H) compared with the spec's pc). Single-group tables are not judged for the cross-group functions; the square form only for bins=0.",
+            "TLA+ model checking (TLC) + spec-to-code replay"),
     "C14": ("DESIGN.md 4/C14",
             "NNSearch.tla in custom-distance mode (six distance families in exact quarters, both radii) is model-checked for the three "
             "engines and the two-collection forms; TcrNN.tla models nearest_neighbor_tcrdist as EditCandidates/LookupV/Cdr3Dist/SumFilter "
